@@ -8,7 +8,9 @@ import (
 	"encoding/json"
 	"errors"
 	"fmt"
+	"github.com/gotid/god/api/chain"
 	"github.com/gotid/god/api/handler"
+	"github.com/gotid/god/lib/stat"
 	"google.golang.org/grpc/codes"
 	"google.golang.org/grpc/status"
 	"io"
@@ -17,6 +19,7 @@ import (
 	"net/http/httptrace"
 	"net/textproto"
 	"strconv"
+	"strings"
 	"sync"
 	"sync/atomic"
 	"testing"
@@ -45,15 +48,24 @@ type verifC02Action struct {
 }
 
 type verifC02Case struct {
-	Kind string `json:"kind"` // e2e | e2em | e2ec
+	// e2ecn: a stateful guard installed through the public middleware plumbing
+	N     int            `json:"n"`     // MaxConns(n)
+	Reqs  int            `json:"reqs"`  // requests of the schedule
+	Via   string         `json:"via"`   // use: server.Use(ToMiddleware(..)) | route: WithMiddleware(ToMiddleware(..), routes...) | routes: WithMiddlewares
+	Guard string         `json:"guard"` // maxconns | breaker
+	Ops   []verifC02CnOp `json:"ops"`
+	Total int            `json:"total"` // breaker: that many failing requests in a row
+	Kind  string         `json:"kind"`  // e2e | e2em | e2ec | e2ecn
 	// e2ec: configuration combinations (server-wide / route timeout, verbose log handler) and large bodies
-	GTimeoutMs int64 `json:"gtimeout_ms"` // Config.Timeout
-	RTimeoutMs int64 `json:"rtimeout_ms"` // WithTimeout on the route, 0 = option absent
-	Verbose    bool  `json:"verbose"`     // Config.Verbose: DetailedLogHandler instead of LogHandler
-	HoldMs     int64 `json:"hold_ms"`     // the handler is kept parked in front of action K for that long (0: never parked)
-	Full       bool  `json:"full"`        // every built-in middleware active (name, max conns, max bytes, shedding)
-	Ref        bool  `json:"ref"`         // also run RecoverHandler(bare handler) on a plain net/http server and report what it delivers
-	K          int   `json:"k"`
+	GTimeoutMs int64            `json:"gtimeout_ms"` // Config.Timeout
+	RTimeoutMs int64            `json:"rtimeout_ms"` // WithTimeout on the route, 0 = option absent
+	Verbose    bool             `json:"verbose"`     // Config.Verbose: DetailedLogHandler instead of LogHandler
+	HoldMs     int64            `json:"hold_ms"`     // the handler is kept parked in front of action K for that long (0: never parked)
+	Cancel     bool             `json:"cancel"`      // instead of waiting for a deadline the CLIENT cancels while the handler is parked
+	Hdrs       []verifC02ReqHdr `json:"hdrs"`        // request headers with degenerate values
+	Full       bool             `json:"full"`        // every built-in middleware active (name, max conns, max bytes, shedding)
+	Ref        bool             `json:"ref"`         // also run RecoverHandler(bare handler) on a plain net/http server and report what it delivers
+	K          int              `json:"k"`
 	// e2em: several requests through ONE engine chain / route
 	MReqs     []verifC02MReq   `json:"mreqs"`
 	MOps      []verifC02MOp    `json:"mops"`
@@ -523,6 +535,66 @@ func verifC02RLE(b []byte) [][2]int {
 	return out
 }
 
+type verifC02CnOp struct {
+	Op    string `json:"op"` // enter | leave
+	I     int    `json:"i"`
+	Panic bool   `json:"panic"`
+}
+
+type verifC02ReqHdr struct {
+	N    string `json:"n"`    // header name
+	Kind string `json:"kind"` // sep1 | sep2 | empty | long | nonascii | normal
+}
+
+func verifC02HdrValue(kind string) string {
+	if strings.HasPrefix(kind, "#") {
+		return kind[1:]
+	}
+	switch kind {
+	case "sep1":
+		return ","
+	case "sep2":
+		return ", ,"
+	case "empty":
+		return ""
+	case "long":
+		return strings.Repeat("10.0.0.1, ", 800)
+	case "nonascii":
+		return "\u00e9\u4e2d\u6587, \u00ff"
+	}
+	return "10.1.2.3"
+}
+
+// verifC02Outer sits in front of the whole engine chain and remembers what the chain wrote (for requests whose
+// client has gone away and cannot tell).
+type verifC02Outer struct {
+	http.ResponseWriter
+	mu    sync.Mutex
+	code  int
+	hdr   []verifC02Hdr
+	body  bytes.Buffer
+	wrote bool
+}
+
+func (o *verifC02Outer) WriteHeader(code int) {
+	o.mu.Lock()
+	if !o.wrote && !(code >= 100 && code <= 199 && code != 101) {
+		o.wrote, o.code, o.hdr = true, code, verifC02Snap(o.Header())
+	}
+	o.mu.Unlock()
+	o.ResponseWriter.WriteHeader(code)
+}
+
+func (o *verifC02Outer) Write(b []byte) (int, error) {
+	o.mu.Lock()
+	if !o.wrote {
+		o.wrote, o.code, o.hdr = true, http.StatusOK, verifC02Snap(o.Header())
+	}
+	o.body.Write(b)
+	o.mu.Unlock()
+	return o.ResponseWriter.Write(b)
+}
+
 type verifC02Result struct {
 	status int
 	hdr    []verifC02Hdr
@@ -533,6 +605,10 @@ type verifC02Result struct {
 
 // verifC02Post sends one POST and reports the final response plus the informational (1xx) responses before it.
 func verifC02Post(url string) verifC02Result {
+	return verifC02PostCtx(context.Background(), url, nil)
+}
+
+func verifC02PostCtx(ctx context.Context, url string, hdrs []verifC02ReqHdr) verifC02Result {
 	var mu sync.Mutex
 	info := []int{}
 	trace := &httptrace.ClientTrace{Got1xxResponse: func(code int, _ textproto.MIMEHeader) error {
@@ -545,7 +621,10 @@ func verifC02Post(url string) verifC02Result {
 	if err != nil {
 		return verifC02Result{err: err}
 	}
-	req = req.WithContext(httptrace.WithClientTrace(context.Background(), trace))
+	for _, h := range hdrs {
+		req.Header[h.N] = []string{verifC02HdrValue(h.Kind)}
+	}
+	req = req.WithContext(httptrace.WithClientTrace(ctx, trace))
 	resp, err := http.DefaultClient.Do(req)
 	if err != nil {
 		return verifC02Result{err: err}
@@ -633,12 +712,21 @@ func verifC02RunConfig(c *verifC02Case, k int) (obs map[string]any, valid bool) 
 	if err := ng.bindRoutes(rt); err != nil {
 		return map[string]any{"error": err.Error()}, true
 	}
-	srv := httptest.NewServer(rt)
+	var outer *verifC02Outer
+	returned := make(chan struct{})
+	srv := httptest.NewServer(http.HandlerFunc(func(w http.ResponseWriter, r *http.Request) {
+		ow := &verifC02Outer{ResponseWriter: w}
+		outer = ow
+		defer close(returned)
+		rt.ServeHTTP(ow, r)
+	}))
 	defer srv.Close()
 
 	type result = verifC02Result
 	resc := make(chan result, 1)
-	go func() { resc <- verifC02Post(srv.URL + "/verif") }()
+	cctx, ccancel := context.WithCancel(context.Background())
+	defer ccancel()
+	go func() { resc <- verifC02PostCtx(cctx, srv.URL+"/verif", c.Hdrs) }()
 
 	valid = true
 	var res result
@@ -650,6 +738,29 @@ func verifC02RunConfig(c *verifC02Case, k int) (obs map[string]any, valid bool) 
 			mu.Lock()
 			valid = live
 			mu.Unlock()
+			if c.Cancel {
+				ccancel() // the client goes away; the server learns it from the closed connection
+				select {
+				case <-returned: // the chain answered (into the void) and returned while the handler is still parked
+					prompt = true
+				case <-time.After(hold):
+				}
+				close(release)
+				select {
+				case <-returned:
+				case <-time.After(verifC02HangLimit):
+					panic("verif: hung: chain did not return")
+				}
+				<-resc
+				outer.mu.Lock()
+				res = result{status: outer.code, hdr: outer.hdr, body: append([]byte{}, outer.body.Bytes()...), info: []int{}}
+				if !outer.wrote {
+					res.status = http.StatusOK
+				}
+				outer.mu.Unlock()
+				got = true
+				break
+			}
 			select {
 			case res = <-resc: // answered while the handler is still parked: some deadline did it
 				got, prompt = true, true
@@ -690,12 +801,155 @@ func verifC02RunConfig(c *verifC02Case, k int) (obs map[string]any, valid bool) 
 		"trace": tr, "prompt": prompt, "parked": wasParked, "ref": ref}, valid
 }
 
+// verifC02Install puts the guard where the case says, using only the exported plumbing (Server.Use, ToMiddleware,
+// WithMiddleware, WithMiddlewares, AddRoutes) and returns the server.
+func verifC02Install(c *verifC02Case, guard func(http.Handler) http.Handler, h http.HandlerFunc, base Config, emptyChain bool) *Server {
+	s := &Server{ng: newEngine(base), router: router.NewRouter()}
+	if emptyChain {
+		WithChain(chain.New())(s)
+	}
+	route := Route{Method: http.MethodPost, Path: "/verif", Handler: h}
+	pass := func(next http.HandlerFunc) http.HandlerFunc { return next }
+	switch c.Via {
+	case "use":
+		s.Use(ToMiddleware(guard))
+		s.AddRoute(route)
+	case "routes":
+		s.AddRoutes(WithMiddlewares([]Middleware{pass, ToMiddleware(guard), pass}, route))
+	default:
+		s.AddRoutes(WithMiddleware(ToMiddleware(guard), route))
+	}
+	return s
+}
+
+// verifC02RunConns: MaxConns(n) installed through the public plumbing in front of parked handlers, driven over real
+// HTTP by an admission schedule (enter i / leave i).
+func verifC02RunConns(c *verifC02Case) map[string]any {
+	type reqState struct {
+		entered chan struct{}
+		release chan bool
+		resc    chan verifC02Result
+		ran     bool
+		state   string
+	}
+	reqs := make([]*reqState, c.Reqs)
+	for i := range reqs {
+		reqs[i] = &reqState{entered: make(chan struct{}), release: make(chan bool), resc: make(chan verifC02Result, 1), state: "out"}
+	}
+	h := func(w http.ResponseWriter, r *http.Request) {
+		i, _ := strconv.Atoi(r.Header.Get("X-Verif-Req"))
+		q := reqs[i]
+		q.ran = true
+		close(q.entered)
+		if <-q.release {
+			panic("verif: scripted panic")
+		}
+	}
+	s := verifC02Install(c, handler.MaxConns(c.N), h, Config{Timeout: 60000}, false)
+	if err := s.ng.bindRoutes(s.router); err != nil {
+		return map[string]any{"error": err.Error()}
+	}
+	srv := httptest.NewServer(s.router)
+	defer srv.Close()
+
+	obs := make([]map[string]any, 0, len(c.Ops))
+	for _, op := range c.Ops {
+		if op.I < 0 || op.I >= len(reqs) {
+			obs = append(obs, map[string]any{"o": "bad"})
+			continue
+		}
+		q := reqs[op.I]
+		switch op.Op {
+		case "enter":
+			if q.state != "out" {
+				obs = append(obs, map[string]any{"o": "bad"})
+				continue
+			}
+			i := op.I
+			go func() {
+				q.resc <- verifC02PostCtx(context.Background(), srv.URL+"/verif", []verifC02ReqHdr{{N: "X-Verif-Req", Kind: "#" + strconv.Itoa(i)}})
+			}()
+			select {
+			case <-q.entered:
+				q.state = "in"
+				obs = append(obs, map[string]any{"o": "in"})
+			case res := <-q.resc:
+				q.state = "rejected"
+				obs = append(obs, map[string]any{"o": "rejected", "status": res.status, "ran": q.ran, "client_error": res.err != nil})
+			case <-time.After(verifC02HangLimit):
+				panic("verif: hung: request neither entered the handler nor came back")
+			}
+		case "leave":
+			if q.state != "in" {
+				obs = append(obs, map[string]any{"o": "bad"})
+				continue
+			}
+			q.release <- op.Panic
+			select {
+			case res := <-q.resc:
+				q.state = "left"
+				obs = append(obs, map[string]any{"o": "left", "status": res.status, "propagated": res.err != nil})
+			case <-time.After(verifC02HangLimit):
+				panic("verif: hung: request did not come back after its handler returned")
+			}
+		default:
+			obs = append(obs, map[string]any{"o": "bad"})
+		}
+	}
+	for _, q := range reqs {
+		if q.state == "in" {
+			q.release <- false
+			<-q.resc
+		}
+	}
+	return map[string]any{"ops": obs}
+}
+
+// verifC02RunBreaker: BreakerHandler installed through the public plumbing (and nothing else in the chain); Total
+// requests whose handler answers 500 are sent one after the other. A breaker that lives as long as the installed
+// middleware cuts the failing route off at some point: requests answered 503 without the handler running.
+func verifC02RunBreaker(c *verifC02Case) map[string]any {
+	var ran int32
+	h := func(w http.ResponseWriter, r *http.Request) {
+		atomic.AddInt32(&ran, 1)
+		w.WriteHeader(http.StatusInternalServerError)
+	}
+	metrics := stat.NewMetrics("verif-c02-breaker")
+	s := verifC02Install(c, handler.BreakerHandler(http.MethodPost, "/verif-"+strconv.FormatInt(time.Now().UnixNano(), 36), metrics), h, Config{}, true)
+	if err := s.ng.bindRoutes(s.router); err != nil {
+		return map[string]any{"error": err.Error()}
+	}
+	srv := httptest.NewServer(s.router)
+	defer srv.Close()
+	rejected, failed, other := 0, 0, 0
+	for i := 0; i < c.Total; i++ {
+		before := atomic.LoadInt32(&ran)
+		res := verifC02Post(srv.URL + "/verif")
+		after := atomic.LoadInt32(&ran)
+		switch {
+		case res.err == nil && res.status == http.StatusServiceUnavailable && after == before:
+			rejected++
+		case res.err == nil && res.status == http.StatusInternalServerError && after == before+1:
+			failed++
+		default:
+			other++
+		}
+	}
+	return map[string]any{"total": c.Total, "rejected": rejected, "failed": failed, "other": other}
+}
+
 func TestVerifDriverC02(t *testing.T) {
 	logx.Disable()
 	verifdrv.Run(t, func(raw json.RawMessage) any {
 		var c verifC02Case
 		if err := json.Unmarshal(raw, &c); err != nil {
 			return map[string]any{"error": err.Error()}
+		}
+		if c.Kind == "e2ecn" {
+			if c.Guard == "breaker" {
+				return verifC02RunBreaker(&c)
+			}
+			return verifC02RunConns(&c)
 		}
 		if c.Kind == "e2ec" {
 			var obs map[string]any
